@@ -245,10 +245,44 @@ pub fn run_access<W: WorldSpec>(w: &W, m: &Model, stats: &mut Stats, held: &mut 
     let saved = held.len();
     let mutable = acc.m;
     // does this access actually take a borrow in the current state?
+    if matches!(acc.kind, AccKind::DoubleFind | AccKind::DoubleIter) {
+        // the same column named twice in one borrow-mode query: refused whenever it reaches an entity
+        let mut ran = false;
+        let is_iter = acc.kind == AccKind::DoubleIter;
+        // determine the site's archetype from a call that cannot reach an entity (find without key)
+        let (sa, _sc) = match w.acc_double_use(false, None, &mut || {}) {
+            Some(x) => x,
+            None => return,
+        };
+        let slive = m.live_of(sa);
+        let key = if slive.is_empty() { None } else { any_from_bits(slive[acc.ent as usize % slive.len()]).map(Key::A) };
+        let reaches = !slive.is_empty();
+        let r = catch(|| w.acc_double_use(is_iter, if is_iter { None } else { key }, &mut || ran = true));
+        stats.inc("c11_access");
+        match r {
+            Ok(_) => {
+                if reaches {
+                    vio("C11", "aliasing-access-granted", format!("a borrow-mode query naming one column as & and &mut ran to completion ({:?})", acc));
+                }
+            }
+            Err(c) => {
+                if is_borrow_panic(&c.msg) && reaches && !ran {
+                    stats.inc("F6_borrow_conflict");
+                    stats.inc("c11_double_use_refused");
+                } else if is_borrow_panic(&c.msg) {
+                    vio("C11", "spurious-refusal", format!("double-use query panicked with '{}' without reaching an entity", c.msg));
+                } else {
+                    vio("C10", "unexpected-panic", format!("double-use query panicked: {}", c.msg));
+                }
+            }
+        }
+        return;
+    }
     let takes_borrow = match acc.kind {
         AccKind::FindBorrow | AccKind::BorrowComp | AccKind::IterBorrow => ent.is_some(),
         AccKind::BorrowSlice => true,
         AccKind::CloneWorld => true,
+        AccKind::DoubleFind | AccKind::DoubleIter => false,
     };
     let predicted = match acc.kind {
         AccKind::CloneWorld => held.iter().any(|(_, _, hm)| *hm),
@@ -314,6 +348,7 @@ pub fn run_access<W: WorldSpec>(w: &W, m: &Model, stats: &mut Stats, held: &mut 
                 *ran = true;
                 drop(c);
             }
+            AccKind::DoubleFind | AccKind::DoubleIter => {}
         })
     };
     held.truncate(saved);
